@@ -4,6 +4,7 @@ import (
 	"fmt"
 	"go/token"
 	"go/types"
+	"os"
 	"sort"
 
 	"golang.org/x/tools/go/ssa"
@@ -477,6 +478,18 @@ func (w *World) ruleAlwaysWrites(r *Report, rule string) {
 			}
 		}
 		walk(fn.Blocks[0])
+		if !ok {
+			// the block-level walk joins paths: a helper's "handled" flag and what the
+			// helper wrote are correlated only path by path
+			ok2, why2 := w.pxAlwaysWrites(fn, aw, leaf)
+			if os.Getenv("HLINT_AWDEBUG") != "" {
+				fmt.Fprintf(os.Stderr, "AW %s px=%v %s\n", fnName(fn), ok2, why2)
+			}
+			if ok2 {
+				ok = true
+				delete(why, fn)
+			}
+		}
 		return ok
 	}
 	for changed := true; changed; {
